@@ -659,9 +659,11 @@ class Workspace(AbstractContextManager):
         for key, value in referents.items():
             if value() is None:
                 rem_list += [key]
-                self._io_call(
-                    H5Writer.remove_entity, key, rtype, parent=self, mode="r+"
-                )
+                # property groups are stored with their object, not in a flat container
+                if rtype != "PropertyGroups":
+                    self._io_call(
+                        H5Writer.remove_entity, key, rtype, parent=self, mode="r+"
+                    )
 
         for key in rem_list:
             del referents[key]
